@@ -4,11 +4,14 @@ package mapping
 
 import (
 	"encoding/json"
+	"io"
 	"math"
 	"reflect"
 	"sort"
 	"strconv"
+	"strings"
 	"testing"
+	"testing/iotest"
 
 	"github.com/gotid/god/internal/verifdrv"
 	"github.com/gotid/god/internal/verifdrv/c05shape"
@@ -22,6 +25,7 @@ type verifCase struct {
 	StrMode bool           `json:"strmode"` // also unmarshal with WithStringValues() (the form/path/header unmarshalers)
 	Float   string         `json:"float"`   // a number token: JSON and YAML routes into float32/float64, bit patterns
 	Marshal *verifMarshal  `json:"marshal"` // direct Marshal of a generated struct value
+	Readers bool           `json:"readers"` // extra reader situations: empty, blank, drained, one byte at a time
 }
 
 type verifMarshal struct {
@@ -131,6 +135,40 @@ func TestVerifDriver(t *testing.T) {
 		if c.YAML != "" {
 			out["y"] = c05shape.RunInto(typ, func(v any) error { return UnmarshalYamlBytes([]byte(c.YAML), v) })
 		}
+		// reader entry points against the bytes entry points: rows of [what, bytes variant, reader variant]
+		pair := func(what string, content string, bytesFn func([]byte, any, ...UnmarshalOption) error,
+			readerFn func(io.Reader, any, ...UnmarshalOption) error, mk func(string) io.Reader) []any {
+			return []any{what,
+				c05shape.RunInto(typ, func(v any) error { return bytesFn([]byte(content), v) }),
+				c05shape.RunInto(typ, func(v any) error { return readerFn(mk(content), v) })}
+		}
+		plain := func(s string) io.Reader { return strings.NewReader(s) }
+		rows := []any{pair("json", c.JSON, UnmarshalJsonBytes, UnmarshalJsonReader, plain)}
+		if c.YAML != "" {
+			rows = append(rows, pair("yaml", c.YAML, UnmarshalYamlBytes, UnmarshalYamlReader, plain))
+		}
+		if c.Readers {
+			drained := func(string) io.Reader {
+				r := strings.NewReader(c.JSON)
+				io.Copy(io.Discard, r)
+				return r
+			}
+			onebyte := func(s string) io.Reader { return iotest.OneByteReader(strings.NewReader(s)) }
+			rows = append(rows,
+				pair("json-empty", "", UnmarshalJsonBytes, UnmarshalJsonReader, plain),
+				pair("yaml-empty", "", UnmarshalYamlBytes, UnmarshalYamlReader, plain),
+				pair("json-blank", " \n", UnmarshalJsonBytes, UnmarshalJsonReader, plain),
+				pair("yaml-blank", " \n", UnmarshalYamlBytes, UnmarshalYamlReader, plain),
+				pair("json-drained", "", UnmarshalJsonBytes, UnmarshalJsonReader, drained),
+				pair("yaml-drained", "", UnmarshalYamlBytes, UnmarshalYamlReader, drained),
+				pair("json-onebyte", c.JSON, UnmarshalJsonBytes, UnmarshalJsonReader, onebyte),
+				pair("json-object-empty", "{}", UnmarshalJsonBytes, UnmarshalJsonReader, plain),
+				pair("yaml-object-empty", "{}", UnmarshalYamlBytes, UnmarshalYamlReader, plain))
+			if c.YAML != "" {
+				rows = append(rows, pair("yaml-onebyte", c.YAML, UnmarshalYamlBytes, UnmarshalYamlReader, onebyte))
+			}
+		}
+		out["rd"] = rows
 		if c.StrMode {
 			out["s"] = c05shape.RunInto(typ, func(v any) error {
 				var m map[string]any
